@@ -40,8 +40,8 @@ type vfSpecItem struct {
 	// for the padding extension: wire length given the unpadded hello length (handshake header excluded)
 	pad func(unpadded int) int
 	// per-extension facts
-	wireType   int  // extension type on the wire (-1 GREASE)
-	hasWriter  bool // ExtensionFromID knows the type and it has a Write method (fingerprinter can represent it)
+	wireType    int  // extension type on the wire (-1 GREASE)
+	hasWriter   bool // ExtensionFromID knows the type and it has a Write method (fingerprinter can represent it)
 	jsonCapable bool
 }
 
@@ -1099,7 +1099,9 @@ func vfGenCustomSpec(t *rapid.T) (*ClientHelloSpec, *vfSpecMeta) {
 			meta.boundary("max-cert-compression-algs")
 		}
 		add(vfSpecItem{Kind: "compress_certificate", Desc: fmt.Sprint(n), wireType: 27, hasWriter: true, jsonCapable: sane,
-			mk:   func() TLSExtension { return &UtlsCompressCertExtension{Algorithms: append([]CertCompressionAlgo(nil), algs...)} },
+			mk: func() TLSExtension {
+				return &UtlsCompressCertExtension{Algorithms: append([]CertCompressionAlgo(nil), algs...)}
+			},
 			wlen: func(string) int { return 5 + 2*n }})
 	}
 	if has(20) {
